@@ -443,6 +443,10 @@ func (s *blsThresholdSignatureInspector) reconstructThresholdSignature() (Signat
 	shares := make([]byte, 0, len(s.shares)*SignatureLenBLSBLS12381)
 	signers := make([]index, 0, len(s.shares))
 	for index, share := range s.shares {
+		// a share of the wrong length cannot be a valid signature
+		if len(share) != SignatureLenBLSBLS12381 {
+			return nil, errInvalidSignature
+		}
 		shares = append(shares, share...)
 		signers = append(signers, index+1)
 	}
@@ -528,6 +532,11 @@ func BLSReconstructThresholdSignature(size int, threshold int,
 	flatShares := make([]byte, 0, SignatureLenBLSBLS12381*(threshold+1))
 	indexSigners := make([]index, 0, threshold+1)
 	for i, share := range shares {
+		// a share of the wrong length cannot be a valid signature, only the first
+		// (threshold+1) shares are read by the reconstruction
+		if i <= threshold && len(share) != SignatureLenBLSBLS12381 {
+			return nil, errInvalidSignature
+		}
 		flatShares = append(flatShares, share...)
 		// check the index is valid
 		if signers[i] >= size || signers[i] < 0 {
